@@ -19,6 +19,9 @@ fn all_entry_points(bytes: &[u8], off: usize) -> Vec<String> {
         ops.push(e.to_string());
         ops.push("d.end".into());
     }
+    if off == 0 {
+        for k in ["bool", "u8", "word", "int", "char", "bytes", "utf8"] { ops.push(format!("t.dec {k} {}", hex(bytes))); }
+    }
     ops
 }
 
